@@ -372,7 +372,8 @@ impl ViVisual {
 
 		let motion = 'motion_parse: {
 			let mut chars_clone = chars.clone();
-			let count = self.parse_count(&mut chars_clone).unwrap_or(1);
+			let count_given = self.parse_count(&mut chars_clone);
+			let count = count_given.unwrap_or(1);
 
 			let Some(ch) = chars_clone.next() else {
 				break 'motion_parse None
@@ -390,7 +391,10 @@ impl ViVisual {
 				'g' => {
 					if let Some(ch) = chars_clone.peek() {
 						match ch {
-							'g' => break 'motion_parse Some(MotionCmd(count, Motion::BeginningOfBuffer)),
+							'g' => break 'motion_parse Some(match count_given {
+								Some(line) => MotionCmd(line, Motion::GotoLine),
+								None => MotionCmd(1, Motion::BeginningOfBuffer),
+							}),
 							'e' => break 'motion_parse Some(MotionCmd(count, Motion::WordMotion(To::End, Word::Normal, Direction::Backward))),
 							'E' => break 'motion_parse Some(MotionCmd(count, Motion::WordMotion(To::End, Word::Big, Direction::Backward))),
 							'k' => break 'motion_parse Some(MotionCmd(count, Motion::ScreenLineUp)),
@@ -450,7 +454,11 @@ impl ViVisual {
 
 					break 'motion_parse Some(MotionCmd(count, Motion::CharSearch(Direction::Backward, Dest::Before, *ch)))
 				}
-				'G' => break 'motion_parse Some(MotionCmd(count, Motion::EndOfBuffer)),
+				'G' => break 'motion_parse Some(match count_given {
+					// With a count, G goes to that line
+					Some(line) => MotionCmd(line, Motion::GotoLine),
+					None => MotionCmd(1, Motion::EndOfBuffer),
+				}),
 				'n' => break 'motion_parse Some(MotionCmd(count, Motion::NextMatch)),
 				'N' => break 'motion_parse Some(MotionCmd(count, Motion::PrevMatch)),
 				';' => break 'motion_parse Some(MotionCmd(count, Motion::RepeatMotion)),
